@@ -152,22 +152,32 @@ def mutate_attr(
     return obj
 
 
-def invalidate_attrs(obj: Any, attr: str, invalidation_map: Dict[str, Set[str]] = None):
+def invalidate_attrs(
+    obj: Any,
+    attr: str,
+    invalidation_map: Dict[str, Set[str]] = None,
+    _seen: Set[str] = None,
+):
     if invalidation_map is None:
         invalidation_map = obj.__spec_class__.invalidation_map
     if not invalidation_map:
         return
+    seen = {attr} if _seen is None else _seen
 
     # Handle invalidation
     for invalidatee in invalidation_map.get(attr, set()) | invalidation_map.get(
         "*", set()
     ):
-        if invalidatee == attr:
+        if invalidatee == attr or invalidatee in seen:
             continue
         try:
             delattr(obj, invalidatee)
         except AttributeError:
-            pass
+            # There was nothing to delete (e.g. an uncached property), but
+            # values derived from `invalidatee` may still be cached further down
+            # the chain, so keep propagating.
+            seen.add(invalidatee)
+            invalidate_attrs(obj, invalidatee, invalidation_map, seen)
 
 
 def mutate_value(
